@@ -205,6 +205,45 @@ fn emulate_worker(n: libc::c_int) -> String {
     }))
 }
 
+static ONESHOT_SIG: std::sync::atomic::AtomicI32 = std::sync::atomic::AtomicI32::new(0);
+
+extern "C" fn oneshot_handler(_s: libc::c_int) {
+    let n = ONESHOT_SIG.load(Ordering::SeqCst);
+    if signal_hook::low_level::emulate_default_handler(n).is_err() {
+        EMU_ERR.store(true, Ordering::SeqCst);
+    }
+}
+
+/// the signal is blocked and its disposition is already the default one: a thread that takes its signals with
+/// sigwait / signalfd, or a one-shot (SA_RESETHAND) handler - the emulation still has to end in the signal's
+/// default action
+fn emulate_blocked(n: libc::c_int) -> String {
+    fork_classify(move || unsafe {
+        let mut set: libc::sigset_t = std::mem::zeroed();
+        libc::sigemptyset(&mut set);
+        libc::sigaddset(&mut set, n);
+        libc::sigprocmask(libc::SIG_BLOCK, &set, std::ptr::null_mut());
+        match signal_hook::low_level::emulate_default_handler(n) {
+            Ok(()) => 0,
+            Err(_) => 3,
+        }
+    })
+}
+
+fn emulate_oneshot(n: libc::c_int) -> String {
+    fork_classify(move || unsafe {
+        ONESHOT_SIG.store(n, Ordering::SeqCst);
+        let mut sa: libc::sigaction = std::mem::zeroed();
+        sa.sa_sigaction = oneshot_handler as usize;
+        sa.sa_flags = libc::SA_RESETHAND;
+        if libc::sigaction(n, &sa, std::ptr::null_mut()) != 0 {
+            return 4;
+        }
+        libc::raise(n);
+        if EMU_ERR.load(Ordering::SeqCst) { 3 } else { 0 }
+    })
+}
+
 fn native(n: libc::c_int) -> String {
     fork_classify(|| unsafe {
         if libc::raise(n) != 0 {
@@ -306,6 +345,8 @@ pub fn main() -> i32 {
                         "pending" => emulate_pending(n),
                         "group" => emulate_group(n),
                         "worker" => emulate_worker(n),
+                        "blocked" => emulate_blocked(n),
+                        "oneshot" => emulate_oneshot(n),
                         "handler" => emulate_in_handler(n),
                         "cond" => emulate_cond_default(n),
                         _ => "bad-ctx".into(),
